@@ -402,6 +402,16 @@ func ParseRTR(data []byte) (RTRMessage, error) {
 	if len(data) < RTR_MIN_LEN {
 		return nil, fmt.Errorf("not all bytes are available for RTR message")
 	}
+	// The PDU ends where its Length field says: never decode octets that
+	// follow the declared PDU in the caller's buffer.
+	length := binary.BigEndian.Uint32(data[4:8])
+	if length < RTR_MIN_LEN {
+		return nil, fmt.Errorf("invalid RTR message length %d", length)
+	}
+	if uint64(length) > uint64(len(data)) {
+		return nil, fmt.Errorf("not all bytes are available for RTR message")
+	}
+	data = data[:length]
 	var msg RTRMessage
 	switch data[1] {
 	case RTR_SERIAL_NOTIFY:
